@@ -83,6 +83,13 @@ def explore_c15(rng, tier, res, deep=False):
         ("$.k[?@ < $.lim]", {"lim": 2, "k": [1, 2, 3]}, lambda d: d.__setitem__("lim", 4)),
         ("$[?@.v == $[-1].v]", [{"v": 1}, {"v": 2}], lambda d: d.append({"v": 1})),
         ("$..*", {"a": {"b": 1}}, lambda d: d["a"].__setitem__("c", [2])),
+        # several selectors in one segment applied to several input nodes: the order of find() is the order of finditer()
+        ("$[*]['b','a']", [{"a": 1, "b": 2}, {"b": 3, "a": 4}, {"a": 5}], lambda d: d.append({"b": 6})),
+        ("$[*][0,1]", [[10, 11], [20, 21]], lambda d: d.append([30, 31])),
+        ("$.x[*][1,0,-1]", {"x": [[1, 2], [3, 4]]}, lambda d: d["x"].reverse()),
+        ("$..k['a','b',*]", {"k": {"a": 1, "b": 2}, "z": {"k": {"b": 3, "a": 4}}}, lambda d: d["z"]["k"].pop("a")),
+        ("$[0,1][*,0]", [[1, 2], [3]], lambda d: d[0].append(9)),
+        ("$[*][?@ > 1, 0]", [[1, 2], [3, 0]], lambda d: d[1].insert(0, 5)),
         ("$..[?@]", [[1], [2]], lambda d: d.pop(0)),
     ]
     forced_edit = None
